@@ -111,6 +111,7 @@ def create_marker_cache_from_specified_markers(
 
     # check that all non-trivial parent nodes will have more than
     # zero marker genes assigned to them
+    consulted_parents = None
     if taxonomy_tree is not None:
         marker_lookup = validate_marker_lookup(
             marker_lookup=marker_lookup,
@@ -118,6 +119,19 @@ def create_marker_cache_from_specified_markers(
             taxonomy_tree=taxonomy_tree,
             log=log,
             min_markers=min_markers)
+
+        # the parents whose markers will actually be used
+        # (those with more than one child in this taxonomy)
+        consulted_parents = set()
+        for parent in taxonomy_tree.all_parents:
+            if parent is None:
+                children = taxonomy_tree.children(None, None)
+                parent_str = 'None'
+            else:
+                children = taxonomy_tree.children(parent[0], parent[1])
+                parent_str = f'{parent[0]}/{parent[1]}'
+            if len(children) > 1:
+                consulted_parents.add(parent_str)
 
     query_gene_set = set(query_gene_names)
     reference_gene_set = set(reference_gene_names)
@@ -132,7 +146,13 @@ def create_marker_cache_from_specified_markers(
         marker_set = set(marker_lookup[parent_node])
         these_markers = list(marker_set.intersection(query_gene_set))
 
-        if len(these_markers) == 0 and len(marker_set) > 0:
+        if consulted_parents is not None \
+                and parent_node not in consulted_parents:
+            # markers listed for a parent this taxonomy never
+            # consults (single child, or a level that was dropped)
+            # cannot invalidate the run
+            pass
+        elif len(these_markers) == 0 and len(marker_set) > 0:
             these_markers = list(query_gene_set)
             msg = f"No markers at parent node '{parent_node}' were present "
             msg += "in query set."
